@@ -574,20 +574,36 @@ pub trait PeekByte {
 
 impl PeekByte for Variant {
     fn peek_byte(&self, address: usize) -> Result<u8, RuntimeError> {
-        match self {
-            Self::VInteger(i) => {
-                let bytes = i32_to_bytes(*i);
-                Ok(bytes[address])
+        let byte = match self {
+            Self::VInteger(i) => i32_to_bytes(*i).get(address).copied(),
+            Self::VLong(l) => (*l as i32).to_le_bytes().get(address).copied(),
+            Self::VSingle(f) => f.to_le_bytes().get(address).copied(),
+            Self::VDouble(d) => d.to_le_bytes().get(address).copied(),
+            Self::VString(s) => s.chars().nth(address).map(|ch| ch as u8),
+            Self::VArray(v_array) => return v_array.peek_byte(address),
+            Self::VUserDefined(user_defined_type_value) => {
+                let mut offset = address;
+                for value in user_defined_type_value.values() {
+                    let len = value.byte_size();
+                    if offset < len {
+                        return value.peek_byte(offset);
+                    }
+                    offset -= len;
+                }
+                None
             }
-            _ => todo!(),
-        }
+        };
+        byte.ok_or(RuntimeError::SubscriptOutOfRange)
     }
 }
 
 impl PeekByte for VArray {
     fn peek_byte(&self, address: usize) -> Result<u8, RuntimeError> {
         let element_size = self.byte_size() / self.len();
-        debug_assert!(element_size > 0);
+        if element_size == 0 {
+            // an array of empty strings has no bytes to address
+            return Err(RuntimeError::SubscriptOutOfRange);
+        }
         let element_index = address / element_size;
         let offset = address % element_size;
         let element = self
@@ -606,11 +622,70 @@ impl PokeByte for Variant {
         match self {
             Self::VInteger(i) => {
                 let mut bytes = i32_to_bytes(*i);
-                bytes[address] = value;
+                *bytes
+                    .get_mut(address)
+                    .ok_or(RuntimeError::SubscriptOutOfRange)? = value;
                 *i = bytes_to_i32(bytes);
                 Ok(())
             }
-            _ => todo!(),
+            Self::VLong(l) => {
+                let mut bytes = (*l as i32).to_le_bytes();
+                *bytes
+                    .get_mut(address)
+                    .ok_or(RuntimeError::SubscriptOutOfRange)? = value;
+                *l = i32::from_le_bytes(bytes) as i64;
+                Ok(())
+            }
+            Self::VSingle(f) => {
+                let mut bytes = f.to_le_bytes();
+                *bytes
+                    .get_mut(address)
+                    .ok_or(RuntimeError::SubscriptOutOfRange)? = value;
+                let new_value = f32::from_le_bytes(bytes);
+                if new_value.is_finite() {
+                    *f = new_value;
+                    Ok(())
+                } else {
+                    Err(RuntimeError::Overflow)
+                }
+            }
+            Self::VDouble(d) => {
+                let mut bytes = d.to_le_bytes();
+                *bytes
+                    .get_mut(address)
+                    .ok_or(RuntimeError::SubscriptOutOfRange)? = value;
+                let new_value = f64::from_le_bytes(bytes);
+                if new_value.is_finite() {
+                    *d = new_value;
+                    Ok(())
+                } else {
+                    Err(RuntimeError::Overflow)
+                }
+            }
+            Self::VString(s) => {
+                let mut chars: Vec<char> = s.chars().collect();
+                *chars
+                    .get_mut(address)
+                    .ok_or(RuntimeError::SubscriptOutOfRange)? = value as char;
+                *s = chars.into_iter().collect();
+                Ok(())
+            }
+            Self::VArray(v_array) => v_array.poke_byte(address, value),
+            Self::VUserDefined(user_defined_type_value) => {
+                let mut offset = address;
+                let names: Vec<CaseInsensitiveString> =
+                    user_defined_type_value.names().cloned().collect();
+                for name in names {
+                    if let Some(property) = user_defined_type_value.get_mut(&name) {
+                        let len = property.byte_size();
+                        if offset < len {
+                            return property.poke_byte(offset, value);
+                        }
+                        offset -= len;
+                    }
+                }
+                Err(RuntimeError::SubscriptOutOfRange)
+            }
         }
     }
 }
@@ -618,7 +693,10 @@ impl PokeByte for Variant {
 impl PokeByte for VArray {
     fn poke_byte(&mut self, address: usize, value: u8) -> Result<(), RuntimeError> {
         let element_size = self.byte_size() / self.len();
-        debug_assert!(element_size > 0);
+        if element_size == 0 {
+            // an array of empty strings has no bytes to address
+            return Err(RuntimeError::SubscriptOutOfRange);
+        }
         let element_index = address / element_size;
         let offset = address % element_size;
         let element = self
